@@ -9,7 +9,7 @@ from typing import TYPE_CHECKING, Any, ClassVar, cast
 
 from _griffe.agents.inspector import inspect
 from _griffe.agents.visitor import visit
-from _griffe.collections import LinesCollection, ModulesCollection
+from _griffe.collections import LinesCollection, ModulesCollection, _source_lines
 from _griffe.enumerations import Kind
 from _griffe.exceptions import (
     AliasResolutionError,
@@ -658,7 +658,7 @@ class GriffeLoader:
     def _visit_module(self, module_name: str, module_path: Path, parent: Module | None = None) -> Module:
         code = module_path.read_text(encoding="utf8")
         if self.store_source:
-            self.lines_collection[module_path] = code.splitlines(keepends=False)
+            self.lines_collection[module_path] = _source_lines(code)
         start = datetime.now(tz=timezone.utc)
         module = visit(
             module_name,
@@ -680,7 +680,7 @@ class GriffeLoader:
             if module_name.startswith(prefix):
                 raise ImportError(f"Ignored module '{module_name}'")
         if self.store_source and filepath and filepath.suffix in {".py", ".pyi"}:
-            self.lines_collection[filepath] = filepath.read_text(encoding="utf8").splitlines(keepends=False)
+            self.lines_collection[filepath] = _source_lines(filepath.read_text(encoding="utf8"))
         start = datetime.now(tz=timezone.utc)
         try:
             module = inspect(
